@@ -8,6 +8,7 @@ func init() {
 			{Pkg: "biscuit", Func: "VerifC10Block", Quick: p("ops", 2, "arities", 1, "sealed", 1, "setsecond", 2), Thorough: p("ops", 2, "arities", 3, "sealed", 2, "setsecond", 3), Covers: []string{"unmarshalled", "verified", "rejected-at-unmarshal"}},
 			{Pkg: "biscuit", Func: "VerifC10Envelope", Quick: p("arities", 1, "setsecond", 2), Thorough: p("arities", 1, "setsecond", 2), Covers: []string{"unmarshalled", "rejected-at-unmarshal"}},
 			{Pkg: "biscuit", Func: "VerifC10ValidChainBadProof", Quick: p("arities", 1, "setsecond", 2), Thorough: p("arities", 1, "setsecond", 2), Covers: []string{"unmarshalled"}},
+			{Pkg: "biscuit", Func: "VerifC10LeakedWork", Quick: p("arities", 1, "setsecond", 2), Thorough: p("arities", 1, "setsecond", 2), Covers: []string{"evaluated"}, Race: true},
 			{Pkg: "biscuit", Func: "VerifC10Policies", Quick: p("ops", 2, "arities", 1, "sealed", 1, "setsecond", 2), Thorough: p("ops", 2, "arities", 3, "sealed", 1, "setsecond", 3), Covers: []string{"loaded"}},
 		},
 		Assumptions: append([]string{
